@@ -15,7 +15,13 @@ def run(ctx):
                       "after an untagged `|`; every path that consumes another word clears it (exemption: xargs)")
     ctx.rule("R17-2", "tokens produced from an alias value never flow back into the alias lookup; expand_alias runs once per line")
     ctx.rule("R17-3", "unalias removes by exact key; `alias` listing iterates the whole table")
+    ctx.rule("R17-4", "`alias n='v'` stores v whatever n looks like: for every name shape the alias builtin accepts, the "
+                      "tokenizer treats `n=` as an assignment head (keeps the outer quotes in the token), which is what the "
+                      "builtin's `starts with a quote -> unquote once` logic assumes; otherwise a value that begins with a "
+                      "quoted word is unquoted twice and truncated.  Both patterns are read from the code and evaluated on "
+                      "representative names with the program's regex engine")
     for crate in ctx.crates:
+        name_agreement_rule(ctx, crate)
         b = crate.fn("shell::expand_alias")
         if not ctx.require(b is not None, "R17-1", "R17-1|anchor", "shell::expand_alias not found"):
             continue
@@ -230,3 +236,60 @@ def table_rule(ctx, crate):
                key="R17-3|%s|every-entry" % gl.path, crate=crate.kind,
                detail=None if kept else "entries pass through a keyed container or a conditional push: two aliases whose "
                "derived keys coincide (names differing only in case) yield one line")
+
+
+NAME_SHAPES = ["ab", "a7", "7a", "a_b", "_a", "A", "a.b", "a-b", ".a", "-a", "7", "a.7", "7-a"]
+
+
+def _assignment_head_pattern(crate):
+    b = crate.fn("parsers::parser_line::parse_line")
+    if b is None:
+        return None, None
+    for bb, t, c in b.calls():
+        if last_seg(c) == "re_contains":
+            lit = mir.const_str(b.call_args(bb)[1]) if len(b.call_args(bb)) > 1 else None
+            if lit and "=" in lit:
+                return lit, "parse_line"
+    for bb, t, c in b.calls():
+        ci = b.callee_info(t)
+        callee = (ci or {}).get("resolved") or c
+        hb = crate.fn(callee)
+        if hb is not None and hb.kind == "fn" and hb.arg_count == 1 and hb.locals[0]["ty"] == "bool":
+            for b2, t2, c2 in hb.calls():
+                if last_seg(c2) in ("re_contains", "is_match", "new") and hb.call_args(b2):
+                    for a in hb.call_args(b2):
+                        lit = mir.const_str(a)
+                        if lit and "=" in lit:
+                            return lit, callee
+    return None, None
+
+
+def name_agreement_rule(ctx, crate):
+    from .. import refacts
+    a = crate.fn("builtins::alias::run")
+    if a is None:
+        ctx.require(crate.kind != "bin", "R17-4", "R17-4|anchor", "builtins::alias::run not found")
+        return
+    add_pat = None
+    for bb, t, c in a.calls():
+        if last_seg(c) == "new" and "egex" in c:
+            lit = mir.const_str(a.call_args(bb)[0])
+            if lit and "=" in lit:
+                add_pat = lit
+    head_pat, where = _assignment_head_pattern(crate)
+    if not ctx.require(add_pat is not None and head_pat is not None, "R17-4", "R17-4|patterns",
+                       "cannot find the alias definition pattern (%r) / the tokenizer's assignment-head pattern (%r)"
+                       % (add_pat, head_pat)):
+        return
+    ctx.analysed(a)
+    texts = [n + "='x y' z" for n in NAME_SHAPES]
+    acc = refacts.matches(add_pat, [n + "=v" for n in NAME_SHAPES])
+    head = refacts.matches(head_pat, [n + "=" for n in NAME_SHAPES])
+    for n, ok_a, ok_h in zip(NAME_SHAPES, acc, head):
+        if not ok_a:
+            ctx.ob("R17-4", a.path, "name shape %r is not an alias name" % n, True, crate=crate.kind, nontrivial=False)
+            continue
+        ctx.ob("R17-4", a.path, "alias name shape %r: the tokenizer keeps the quotes of its value" % n, bool(ok_h),
+               key="R17-4|name-shape|%s" % n, crate=crate.kind,
+               detail=None if ok_h else "`alias %s='\"a b\" c'` stores `a b`: the tokenizer (%s, %r) strips the outer quotes, "
+               "the builtin sees a value starting with a quote and unquotes again" % (n, where, head_pat))
